@@ -463,8 +463,22 @@ def c02_rules(view, bs):
                     continue
                 if y not in gsucc[x]:
                     continue    # an edge only a flag set on a Break path can take (pruned from the keep-going graph)
-                out.append(finding("C02.LOOP", view,
-                                   "payload loop is left early by an edge that is neither exhaustion nor a Break answer", x))
+                f_ = finding("C02.LOOP", view,
+                             "payload loop is left early by an edge that is neither exhaustion nor a Break answer", x)
+                # the edge may be the `Err` of `child_result.or_else(|e| match E::merge(..) { .. Break(e) => Err(e) })?`: whether it is
+                # only taken after a Break answer is decided inside that closure, which this rule does not follow
+                info_ = view.switch_info(x)
+                if info_ and info_["kind"] == "discr" and info_["place"] is not None:
+                    subj_ = strip_refs(view.origin_place(info_["place"]))
+                    for a_ in [subj_] + [strip_refs(z) for z in view.alts(subj_)]:
+                        if a_[0] == "call" and "Try>::branch" in (a_[2] or "") and a_[3]:
+                            a_ = strip_refs(a_[3][0])
+                        if a_[0] == "call" and (a_[2] or "").split("::<")[0].split("::")[-1] in ("or_else", "map_err", "and_then") and \
+                                any(strip_refs(q)[0] == "agg" and strip_refs(q)[1] == "closure" for q in a_[3]):
+                            f_.what += ": the exit follows a combinator whose closure reports; whether it is only taken on a Break answer was not read: not recognised (undecided)"
+                            f_.undecided = True
+                            break
+                out.append(f_)
 
     # ---- C02.REJOIN: a fault in one item does not skip the examination of its siblings
     for bb in sorted(view.reach):
@@ -543,6 +557,8 @@ def c02_rules(view, bs):
                     looked = True
             if not looked:
                 continue
+            if borrow_only_moves(view, acc):
+                continue    # `error.take()` into the report / `*error = Some(answer)` through a `&mut`: moved, not looked at
             obligations += 1
             after = view.reachable(bb)
             if any(r in next_bbs or r in child_bbs or r in missing_bbs or (r in site_bbs and site_bbs[r].handling == "switched") for r in after):
@@ -762,6 +778,27 @@ def acc_keep(view, bs, rule):
                     continue
                 # a value computed by a local helper / closure: not decided here (C01 tracks the ownership)
     return out, ob
+
+
+def borrow_only_moves(view, acc):
+    """every `&mut acc` only ever reaches `Option::take` / `mem::take` / `mem::replace` (and writes through it): the content
+    is moved out to be handed to a report and the answer written back - nobody looks at it"""
+    import coll
+    try:
+        cons = coll.mut_borrow_consumers(view, acc)
+    except Exception:
+        return False
+    if not cons:
+        return False
+    shared = any(st["k"] == "assign" and st["rv"]["k"] == "ref" and st["rv"].get("bk") == "shared" and st["rv"]["place"]["l"] == acc and not st["rv"]["place"]["p"]
+                 for bb in view.reach for st in view.blocks[bb]["stmts"])
+    if shared:
+        return False
+    for bb, c, i in cons:
+        nm = (c.base() or "") if c is not None and c.fn is not None else ""
+        if nm not in ("std::option::Option::take", "std::mem::take", "std::mem::replace"):
+            return False
+    return True
 
 
 def fold_keep(crate, view, rule):
